@@ -1060,6 +1060,11 @@ func (app *App) updateActiveNodes(clusterState, clusterStateDcs map[string]*node
 	for _, hostname := range becomeActive {
 		err := app.enableSemiSyncOnSlave(hostname, clusterState[hostname], masterState)
 		if err != nil {
+			// semi-sync may have been switched on before the failure (or the reply was lost):
+			// the replica is about to be dropped from the active nodes, so it must not keep acknowledging commits
+			if derr := app.disableSemiSyncOnSlave(hostname, false); derr != nil {
+				return fmt.Errorf("failed to roll back semi-sync on %s: %w", hostname, derr)
+			}
 			waitSlaveCount--
 			activeNodes = filterOut(activeNodes, []string{hostname})
 			continue
